@@ -135,6 +135,7 @@ package region
 // positional consumption (C02): the cells of a result are decoded by the call its index names, into a response holding
 // that result, from the point of the shared cellblock where the previous result's cells ended
 //@ func region.(*multi).DeserializeCellBlocks
+//@   dead return 2 "index 0: excluded by the precondition (the response has been validated by checkResponse)"
 //@   at call DeserializeCellBlocks#1 assert[C02] c == m.calls[i-1] && sameslice(arg1, b[nread:])
 //@   at call DeserializeCellBlocks#1 assert[C02] (typeis(response, "*pb.GetResponse") ==> cast(response, "*pb.GetResponse").Result == r) && (typeis(response, "*pb.MutateResponse") ==> cast(response, "*pb.MutateResponse").Result == r)
 //@   requires typeis(msg, "*pb.MultiResponse")
@@ -417,6 +418,20 @@ package region
 //@   requires ghostat("owed", rpc) == 0
 //@   modifies all
 //@   ensures[C03] ghostat("owed", rpc) == ite(r0 != nil, 1, 0)
+
+// queueing (C03): a request handed to a connection whose failure transition has completed (done closed) is refused at once
+// with the connection-level error and is never put on the wire; a request whose own context has ended is dropped; a
+// failed send is reported to the caller that attempted it
+//@ func region.(*client).QueueRPC
+//@   requires rpc != nil && c.sent != nil && c.conn != nil && sentWF(c) && inflightInv(c) && netRange(c) && failWF(c) && codecWF(c)
+//@   requires forall(k, haskey(c.sent, k) ==> c.sent[k] != rpc) && ghostat("owed", rpc) == 0 && !typeis(rpc, "*region.multi")
+//@   at call trySend#1 assert[C03] ghostat("closed", c.done) != 1 && ghostat("ctxdone", rpc.Context()) == 0
+//@   at call returnResult#1 assert[C03] typeis(arg2, "region.ServerError")
+//@   at call returnResult#2 assert[C03] arg2 != nil && ghostat("owed", rpc) == 1
+//@ func region.(*client).QueueBatch
+//@   requires forall(k, 0 <= k && k < len(rpcs), rpcs[k] != nil)
+//@   loop 1 invariant[C03] forall(k, 0 <= k && k < len(rpcs), ghostat("delivered", rpcs[k]) == old(ghostat("delivered", rpcs[k])) + ite(k < idx1, 1, 0)) || !distinctCallsR(rpcs)
+//@ pred region.distinctCallsR(s) = forall(p, q, 0 <= p && p < q && q < len(s), s[p] != s[q])
 
 // ---- the batching loop never drops a multi whose send failed (C03) ----
 // Ghost owed[call] = 1: the call was taken out of the sent table by a failed trySend and its caller has not delivered the
